@@ -25,6 +25,9 @@
 //   - files written below Install.OutputDir (that is what --output-dir is for);
 //   - client-only template with DryRunOption server|none|false: that spelling is the explicit
 //     request to let `lookup` talk to the cluster, so only the write clauses apply there;
+//   - Install{ClientOnly: true} with no dry-run selector at all (not reachable from `helm
+//     template`, which always sets DryRun): helm reads the release history before it swaps in the
+//     private store; only the write clauses apply (they show that store and client are swapped);
 //   - what the dry run returns (manifest text, notes) - C05/C02 judge rendering;
 //   - whether the real (control) operation succeeds.
 package c06
@@ -79,7 +82,9 @@ var spellingsOf = map[string][]string{
 	"rollback":  {"flag"},
 	"uninstall": {"flag"},
 	// pkg/cmd/template.go always sets DryRun=true and DryRunOption "true" unless the user gave one
-	"template": {"flag+true", "flag+client", "flag", "flag+server", "flag+false"},
+	// "clientonly-off" = ClientOnly without any dry-run selector (reachable from the SDK only):
+	// judged by the write clauses only, see the don't-care list.
+	"template": {"flag+true", "flag+client", "flag", "flag+server", "flag+false", "clientonly-off"},
 }
 
 // non-dry spellings used by the positive controls
@@ -108,11 +113,13 @@ func init() {
 			"operations run one at a time per world, so the log window of an operation contains only its own requests",
 			"readiness is scripted at kube.Interface.GetWaiter (no wall-clock waits)",
 		},
-		Exhaustive: func(tier string) bool { return tier == "thorough" },
+		Exhaustive:  func(tier string) bool { return tier == "thorough" },
 		Explanation: "exhaustive (thorough tier) refers to the full product of the boolean flags read before the dry-run bail-out, per op kind x dry-run spelling x ledger state x driver, for one generated chart family per cell",
 		Gen:         genCases,
 		Run:         run,
 		Post:        post,
+		// generous: the watchdog only guards against hangs (a case needs a few CPU-seconds)
+		CaseTimeoutSec: 900,
 	})
 }
 
@@ -308,6 +315,7 @@ func setDry(spelling string, dry *bool, opt *string) {
 		*dry = true
 	case strings.HasPrefix(spelling, "flag+"):
 		*dry, *opt = true, strings.TrimPrefix(spelling, "flag+")
+	case spelling == "clientonly-off":
 	default:
 		*opt = spelling // "", client, server, true, none, false
 	}
@@ -680,6 +688,9 @@ func run(c core.Case, verbose bool) core.Result {
 		for _, sp := range spellingsOf[d.Kind] {
 			if d.Only != "" && d.Only != fmt.Sprintf("%d:%s", ci, sp) {
 				continue
+			}
+			if sp == "clientonly-off" && f.on("validate") {
+				continue // without ClientOnly that is simply a real install
 			}
 			agent := fmt.Sprintf("dry%d-%s", ci, sp)
 			snapBefore := w.Sim.Snapshot()
